@@ -243,7 +243,7 @@ func (mv *mVal) String() string {
 }
 
 // observe narrows the candidates to those matching the frame; false if none matches.
-func (mv *mVal) observe(frame []byte) (bool, string) {
+func (mv *mVal) observe(frame []byte, narrow bool) (bool, string) {
 	got, err := aDecodeFrame(frame)
 	if err != nil {
 		return false, err.Error()
@@ -257,7 +257,9 @@ func (mv *mVal) observe(frame []byte) (bool, string) {
 	if len(keep) == 0 {
 		return false, fmt.Sprintf("carries value %s, sequential interpreter has %s", got.String(), mv.String())
 	}
-	mv.cands = keep
+	if narrow {
+		mv.cands = keep
+	}
 	return true, ""
 }
 
@@ -265,7 +267,12 @@ func (mv *mVal) observe(frame []byte) (bool, string) {
 // request was accepted its value operation (if any) is then applied.
 func (m *aMonitor) valueReply(k *mKey, r *aReq, rp *aReply, accepted bool) {
 	mv := m.kval(k)
-	if ok, why := mv.observe(rp.Data); !ok {
+	if len(k.holders) == 0 {
+		mv.add(nil) // nothing holds the key: its value may have vanished with the key manager
+	}
+	// while nothing holds the key the reply paths differ in whether they still see a lingering value:
+	// such an observation must match a candidate but does not narrow the set
+	if ok, why := mv.observe(rp.Data, len(k.holders) > 0); !ok {
 		m.viol("C15", "%s reply to #%d %s", aResultName(rp.Result), r.Idx, why)
 		mv.cands = []*aValue{nil}
 		if got, err := aDecodeFrame(rp.Data); err == nil {
@@ -321,7 +328,7 @@ func (m *aMonitor) valueSnapshot(k *mKey, s *aSnapKey) {
 	if len(k.holders) == 0 {
 		mv.add(nil)
 	}
-	if ok, why := mv.observe(s.Data); !ok {
+	if ok, why := mv.observe(s.Data, len(k.holders) > 0); !ok {
 		m.viol("C15", "key %d/%x: stored value %s", k.db, k.key[:2], why)
 		mv.cands = []*aValue{nil}
 		if got, err := aDecodeFrame(s.Data); err == nil {
